@@ -261,6 +261,20 @@ Proof.
   simpl. rewrite (block_find_by_handle s p k e H He Ke). reflexivity.
 Qed.
 
+(** all lookups of one member agree *)
+Theorem lookup_agree s p k pk i e : Inv s -> container s p k pk -> nth_error (children s p k) i = Some e ->
+  stepR s (OGetIdx p k i) = (s, Ok (VEnt (Some (e_oid e)))) /\
+  stepR s (OGet p k (eid e)) = (s, Ok (VEnt (Some (e_oid e)))) /\
+  stepR s (OHas p k (eid e)) = (s, Ok (VBool true)) /\
+  stepR s (OHasH p k (HEnt (e_oid e))) = (s, Ok (VBool true)) /\
+  (k <> KFeature -> stepR s (OGet p k (e_name e)) = (s, Ok (VEnt (Some (e_oid e)))) /\
+                    stepR s (OHas p k (e_name e)) = (s, Ok (VBool true))).
+Proof.
+  intros H C Hi. pose proof (nth_error_In _ _ Hi) as He.
+  split; [eapply get_by_index; eauto|]. split; [eapply get_by_id; eauto|]. split; [eapply has_by_id; eauto|].
+  split; [eapply has_by_handle; eauto|]. intros K. split; [eapply get_by_name; eauto|eapply has_by_name; eauto].
+Qed.
+
 (** has => present: a key that is found names a member (by its link name or by its id) *)
 Theorem has_sound s p k pk key : Inv s -> container s p k pk -> k <> KFeature ->
   stepR s (OHas p k key) = (s, Ok (VBool true)) ->
